@@ -2520,6 +2520,15 @@ fn convert_value_to_type2<'a>(
         let text = inner.as_str();
         // Remove quotes
         let text_content = &text[1..text.len() - 1];
+        if !text_escapes_are_valid(text_content) {
+          return Err(Error::PARSER {
+            position: pest_span_to_position(&inner.as_span(), input),
+            msg: ErrorMsg {
+              short: "Invalid \\u escape in text value: not a Unicode scalar value".to_string(),
+              extended: None,
+            },
+          });
+        }
         // Handle escape sequences
         let unescaped = unescape_text(text_content);
         return Ok(ast::Type2::TextValue {
@@ -2557,6 +2566,14 @@ fn convert_value_to_type2<'a>(
         let text = inner.as_str();
         // Remove quotes
         let text_content = &text[1..text.len() - 1];
+        if !text_escapes_are_valid(text_content) {
+          return Err(Error::PARSER {
+            msg: ErrorMsg {
+              short: "Invalid \\u escape in text value: not a Unicode scalar value".to_string(),
+              extended: None,
+            },
+          });
+        }
         // Handle escape sequences
         let unescaped = unescape_text(text_content);
         return Ok(ast::Type2::TextValue {
@@ -2576,6 +2593,50 @@ fn convert_value_to_type2<'a>(
       extended: None,
     },
   })
+}
+
+/// Returns `true` when every `\u` escape in `text` denotes a Unicode scalar
+/// value: `\u{hex}` must be at most U+10FFFF and not a surrogate, `\uXXXX` must
+/// not be a lone surrogate (a high surrogate must be followed by a `\uXXXX` low
+/// surrogate). `unescape_text` silently drops escapes that fail this test.
+fn text_escapes_are_valid(text: &str) -> bool {
+  let mut chars = text.chars();
+  while let Some(ch) = chars.next() {
+    if ch != '\\' {
+      continue;
+    }
+    if chars.next() != Some('u') {
+      continue;
+    }
+    let mut peekable = chars.clone();
+    if peekable.next() == Some('{') {
+      chars.next();
+      let hex: String = chars.by_ref().take_while(|c| *c != '}').collect();
+      match u32::from_str_radix(&hex, 16) {
+        Ok(cp) if char::from_u32(cp).is_some() => {}
+        _ => return false,
+      }
+    } else {
+      let hex: String = chars.by_ref().take(4).collect();
+      let cp = match u32::from_str_radix(&hex, 16) {
+        Ok(cp) => cp,
+        Err(_) => return false,
+      };
+      if (0xD800..=0xDBFF).contains(&cp) {
+        if chars.next() != Some('\\') || chars.next() != Some('u') {
+          return false;
+        }
+        let low_hex: String = chars.by_ref().take(4).collect();
+        match u32::from_str_radix(&low_hex, 16) {
+          Ok(low) if (0xDC00..=0xDFFF).contains(&low) => {}
+          _ => return false,
+        }
+      } else if (0xDC00..=0xDFFF).contains(&cp) {
+        return false;
+      }
+    }
+  }
+  true
 }
 
 /// Unescape text value (supports RFC 9682 \u{hex} escapes and surrogate pairs)
